@@ -27,6 +27,7 @@ outside the modelled grammar.
 import copy as _copy
 
 import heap_common as H
+import heap_shapes as HS
 
 PID = "C07"
 LEAN_TARGETS = ["SpecVerif.Props.C07Twin"]  # imports SpecVerif.Props.C07
@@ -46,7 +47,17 @@ RULE = (
     "probes (assignment, del, _inplace=True helpers, unmanaged attributes, default-less attributes) on frozen "
     "instances; 12% ill-typed positions, 12% callback fault plans; the oracle re-runs every history on the twin table "
     "(frozen cleared); non-trivial = the line changed the world or raised; distinct = distinct (table, pre-world, "
-    "line) triples. extra = 6 hand-written frozen classes with invalidated_by dependants x 9 helper calls vs twin."
+    "line) triples. extra = 6 hand-written frozen classes with invalidated_by dependants x 9 helper calls vs twin; "
+    "extra (2) = frozen class families outside the heap grammar vs their twins (harness/heap_shapes.py; same source "
+    "template, `frozen=True` the only difference): 17 value kinds (keyed containers, tuples, containers of containers, "
+    "nested plain / frozen spec items) x storage (plain, do_not_copy, invalidated attribute, Alias override / "
+    "passthrough / fallback, overridable and cached spec_property, property with setter) x class shape (eager, lazy, "
+    "spec subclass repeating frozen, plain subclass inheriting it) x invalidation (none, by name, wildcard property, "
+    "wildcard attribute, wildcard only) x state (size, how entries were materialised, caches filled or empty, "
+    "generation 0-3, aliasing, held by a frozen or by a never-frozen outer instance) x every route: copy-on-write "
+    "(valid and failing arguments), deepcopy, and in-place probes (assignment, del, every _inplace=True helper); quick: "
+    "every 14th scenario of the systematic part (offset by seed) + 200 random, seeded random order, second half after "
+    "a prelude of earlier calls; thorough: all + 5000 random."
 )
 ASSUMPTIONS = [
     "in-place probes are generated only on frozen receivers and objects stored by reference are not mutated behind a "
@@ -122,18 +133,34 @@ def _filter_case(case):
 
 def gen_cases(tier, rng):
     if tier == "search":
+        k = 0
         while True:
-            yield _filter_case(H.gen_case(rng, PROFILE))
+            k += 1
+            # every 5th case of the search stream is a scenario of the class families outside the heap grammar
+            yield HS.random_case(PID, rng) if k % 5 == 0 else _filter_case(H.gen_case(rng, PROFILE))
     n = 260 if tier == "quick" else 5000
     for _ in range(n):
         yield _filter_case(H.gen_case(rng, PROFILE))
 
 
-model_lines = H.model_lines
-real_lines = H.real_lines
-shrink = H.shrink_case
-nontrivial = H.nontrivial_keys
-tags = H.op_tags
+def model_lines(case):
+    return [] if HS.is_case(case) else H.model_lines(case)
+
+
+def real_lines(case):
+    return [] if HS.is_case(case) else H.real_lines(case)
+
+
+def shrink(case, at=None):
+    return [] if HS.is_case(case) else H.shrink_case(case, at)
+
+
+def nontrivial(case, real):
+    return [("shapes", H.dumps(case["sc"]))] if HS.is_case(case) else H.nontrivial_keys(case, real)
+
+
+def tags(case, real):
+    return ["shapes:" + HS.route_kind(case["sc"]["route"])] if HS.is_case(case) else H.op_tags(case, real)
 
 
 # ---------------------------------------------------------------------------
@@ -162,6 +189,8 @@ def _run_twin(case, skip):
 
 
 def oracle(case):
+    if HS.is_case(case):  # a scenario of the class families outside the heap grammar (harness/heap_shapes.py)
+        return HS.judge_case(case)
     violations = []
     frozen = _frozen_classes(case["table"])
     # ---- frozen run with hooks
@@ -314,6 +343,10 @@ def _extra_calls():
 
 
 def extra(tier, rng):
+    return HS.merge_extra(_extra_handwritten(tier, rng), HS.extra_section(PID, tier, rng))
+
+
+def _extra_handwritten(tier, rng):
     import copy
 
     evaluations, violations, keys = 0, [], []
@@ -420,6 +453,6 @@ KNOWN_MATCHERS = {}
 
 MANIFEST_ENTRY = {
     "level_text": "Lean 4 proof, over the heap model with object identities and an explicit thaw window (the __spec_class_initializing__ marker as a flag of the instance node), that for an instance of a frozen class assignment, deletion and every helper called with _inplace=True raise (FrozenInstanceError at the guard) before any effect on a pre-existing object, that no operation whatsoever changes a frozen instance or any other pre-existing object, and that copy-on-write helpers and deepcopy return new objects; that every operation not called in place (all helpers with and without keywords, constructor, deepcopy; every callback fault plan) yields the same result and the same final heap on the frozen class table and on its non-frozen twin (two-run simulation with the thaw windows as the only difference); tied to /repo by executing generated histories on frozen class tables on the real spec_classes and on the model, comparing outcome class, contents, aliasing and marker after every step, and by re-running every history on the twin classes.",
-    "level_note": "Trusted: Lean kernel; axioms propext/Classical.choice/Quot.sound only; the hand-written heap model and the correspondence harness. Reading: an in-place call with invalid arguments may raise that error before the frozen guard (it still changes nothing). invalidated_by dependants are outside the modelled grammar and are covered by the twin differential of `extra` only.",
+    "level_note": "Trusted: Lean kernel; axioms propext/Classical.choice/Quot.sound only; the hand-written heap model and the correspondence harness. Reading: an in-place call with invalid arguments may raise that error before the frozen guard (it still changes nothing). invalidated_by dependants (by name and by the wildcard), Alias / spec_property / property backed attributes, keyed containers and tuple-typed attributes are outside the modelled grammar and are covered by the frozen-vs-twin differential over generated class families of `extra` only (harness/heap_shapes.py).",
     "technique": "Lean 4 guard-before-write and frame theorems over a hand-written heap model with a thaw window; differential correspondence + frozen-vs-twin differential on the real classes",
 }
